@@ -74,13 +74,20 @@ type Worker struct {
 func NewWorker(name string, extraEnv ...string) *Worker { return &Worker{name: name, env: extraEnv} }
 
 type tailBuffer struct {
-	mu  sync.Mutex
-	buf []byte
+	mu    sync.Mutex
+	first []byte // the beginning of the stream (a crash or race report starts with its reason)
+	buf   []byte
 }
 
 func (t *tailBuffer) Write(p []byte) (int, error) {
 	t.mu.Lock()
 	defer t.mu.Unlock()
+	if room := 16384 - len(t.first); room > 0 {
+		if len(p) < room {
+			room = len(p)
+		}
+		t.first = append(t.first, p[:room]...)
+	}
 	t.buf = append(t.buf, p...)
 	if len(t.buf) > 65536 {
 		t.buf = t.buf[len(t.buf)-65536:]
@@ -92,6 +99,9 @@ func (t *tailBuffer) head(n int) string {
 	t.mu.Lock()
 	defer t.mu.Unlock()
 	s := string(t.buf)
+	if !strings.Contains(s, "DATA RACE") && !strings.Contains(s, "fatal error:") && !strings.Contains(s, "panic:") {
+		s = string(t.first) // the reason scrolled out of the tail: use the beginning of the stream
+	}
 	// the first lines of a Go crash report carry the reason
 	if i := strings.Index(s, "WARNING: DATA RACE"); i >= 0 {
 		s = s[i:]
